@@ -409,14 +409,24 @@ func (s *state) visitFunction(node *ast.FunctionNode) {
 		return
 	}
 
+	// the loop functions refer to the loop of their argument (which may be an
+	// outer loop), or failing that to the innermost loop.
+	var index, limit = s.scope.loopindex(), s.scope.looplimit()
+	if len(node.Args) == 1 {
+		if ref, ok := node.Args[0].(*ast.DataRefNode); ok && len(ref.Access) == 0 {
+			if i, l := s.scope.loopvars(ref.Key); i != "" {
+				index, limit = i, l
+			}
+		}
+	}
 	switch node.Name {
 	case "isFirst":
 		// TODO: Add compile-time check that this is only called on loop variable.
-		s.js("(", s.scope.loopindex(), " == 0)")
+		s.js("(", index, " == 0)")
 	case "isLast":
-		s.js("(", s.scope.loopindex(), " == ", s.scope.looplimit(), " - 1)")
+		s.js("(", index, " == ", limit, " - 1)")
 	case "index":
-		s.js(s.scope.loopindex())
+		s.js(index)
 	default:
 		s.errorf("unimplemented function: %v", node.Name)
 	}
@@ -558,13 +568,15 @@ func (s *state) visitForRange(node *ast.ForNode) {
 		limit = rangeNode.Args[0]
 	}
 
-	var varIndex,
-		varLimit = s.scope.pushForRange(node.Var)
+	// besides the loop variable, keep the position and the number of iterations
+	// for the loop functions (index, isFirst, isLast).
+	var varValue, varLimit, varIndex, varCount = s.scope.pushForRange(node.Var)
 	defer s.scope.pop()
 	s.jsln("var ", varLimit, " = ", limit, ";")
-	s.jsln("for (var ", varIndex, " = ", init, "; ",
-		varIndex, " < ", varLimit, "; ",
-		varIndex, " += ", increment, ") {")
+	s.jsln("var ", varCount, " = Math.max(0, Math.ceil((", varLimit, " - (", init, ")) / (", increment, ")));")
+	s.jsln("for (var ", varValue, " = ", init, ", ", varIndex, " = 0; ",
+		varValue, " < ", varLimit, "; ",
+		varValue, " += ", increment, ", ", varIndex, "++) {")
 	s.indentLevels++
 	s.walk(node.Body)
 	s.indentLevels--
